@@ -438,6 +438,9 @@ pub struct Script {
     /// two bits per HTTP exchange (index mod 16): 0 no Content-Type header on the reply, 1 text/html, 2
     /// application/json, 3 TEXT/HTML plus Content-Length: 0 and a cache header
     pub content_type_mask: u32,
+    /// (life, clock step of that life, ns): there the monotonic reading goes BACK by up to that many ns (a TimeSource
+    /// need not be an OS clock): the third kind of inconsistent clocks the reboot report has to survive
+    pub mono_back: Option<(usize, usize, u64)>,
 }
 
 impl Default for Script {
@@ -470,6 +473,7 @@ impl Default for Script {
             busy_app_set_mask: 0,
             embedder_changes_apps_at_wait: None,
             content_type_mask: 0,
+            mono_back: None,
         }
     }
 }
